@@ -10,7 +10,7 @@ Mirrors `loki/tools/strings.py` (class `JoinableStringList`) and `loki/backend/p
   both parts together reach the width, the two assertions).
 * `chunks` — the chunker of `_add_item_to_line`: `_pattern_quoted_string = (?:'.*?')|(?:".*?")` driven by
   `finditer`, and `_pattern_chunk_separator = (\s|\)(?!%)|\n)` driven by `split`, as explicit character scanners.
-* `addItem` / `toStrLoop` / `strItem` — `_add_item_to_line`, `_to_str`, `__str__`, mutually recursive on a fuel
+* `addItem` (with `trySplit`, `itemStr`) / `toStrLoop` / `strItem` — `_add_item_to_line`, `_to_str`, `__str__`, mutually recursive on a fuel
   argument (every call consumes one unit; the driver supplies far more than any input needs).
 * `addStr`, `raddStr`, `cat` — `__add__` / `__radd__`.
 * `formatLine` — `Stringifier.format_line`.
